@@ -30,7 +30,7 @@ def x_obligations(tier):
                      bound=f"shipped configuration: s = {pre!r}+c+{suf!r}, c one symbolic character"))
     # typing / rebuilding a plain string answers the same after a Sid OBJECT of the same string (forced, non-first type)
     # went through Sid(): spil's caches on, histories from C13's call alphabet (calls 1-3 first, every call second)
-    for i in (1, 2, 3):
+    for i in (1, 2, 3, 29):
         o.append(Obl(f"C01-history[after call#{i}]", "xhair.obl.c13", "pair", env={"VF_IDX": str(i), "VF_FIRST": "local"}, timeout=170 if tier == "quick" else 600, family="C01-history",
                      bound=f"history (call #{i}: a uri / Sid object with a forced type, call j) for every j of the call alphabet of C13, caches on"))
     o.append(Obl("C01-reach[len<=6]", M, "reach_typed", env={"VF_N": "6"}, timeout=150, expect="refute", family="C01-twin"))
